@@ -192,5 +192,89 @@ def bucket_vc(drop):
                            "the flush loop is abstracted to 'every non-empty pending list is yielded once' (its order is not part of the property)"])
 
 
+def len_vc(drop):
+    """_get_batch_sampler_len on a bucketing sampler = the number of batches its __iter__ yields, for a SYMBOLIC number of buckets.
+    Abstraction: Counter(idx2bucket[i] for i in the epoch's samples) is the map bucket -> cnt(bucket) over K >= 0 distinct buckets
+    (cnt >= 1 for a bucket that occurs) - the same ghost count as in C14.bucket.iter_inv. By that clause's conclusion every bucket
+    satisfies cnt = full * size + pend, 0 <= pend < size, where `full` full batches were yielded and one more batch is flushed at the
+    end iff pend > 0 and incomplete batches are kept. Loop invariant: len_ = BATCHES(k), the number of batches of the first k buckets."""
+    import pydrobert.torch._dataloaders as dl
+
+    K = z3.Int("num_buckets")
+    HB = z3.Function("bucket_at", z3.IntSort(), z3.IntSort())
+    CNT = z3.Function("count_of", z3.IntSort(), z3.IntSort())
+    FULL = z3.Function("full_batches_of", z3.IntSort(), z3.IntSort())
+    PEND = z3.Function("pending_of", z3.IntSort(), z3.IntSort())
+    BATCHES = z3.Function("batches_of_first", z3.IntSort(), z3.IntSort())
+    name = "_get_batch_sampler_len[symbolic number of buckets; drop_incomplete=%s]" % drop
+    per_bucket = lambda h: FULL(h) + (z3.IntVal(0) if drop else z3.If(PEND(h) > 0, 1, 0))
+    accounting = lambda h: z3.And(CNT(h) == FULL(h) * SZ(h) + PEND(h), 0 <= PEND(h), PEND(h) < SZ(h), FULL(h) >= 0, SZ(h) >= 1, CNT(h) >= 1)
+    rec = lambda k: z3.Implies(k >= 0, BATCHES(k + 1) == BATCHES(k) + per_bucket(HB(k)))
+
+    class AbsCounter:
+        def __vc_getattr__(self, I, nm):
+            me = self
+            if nm != "items":
+                raise Unsupported("Counter.%s" % nm)
+
+            class M_:
+                def __vc_call__(s, I2, a, k):
+                    return me
+
+            return M_()
+
+    def thunk(I):
+        class Sampler:
+            def __vc_getattr__(self, I2, nm):
+                if nm == "epoch":
+                    return z3.Int("epoch")
+                if nm == "get_samples_for_epoch":
+                    class M_:
+                        def __vc_call__(s, I3, a, k):
+                            I3.ex.oblige("len.counts_the_current_epoch", ip.to_z3(a[0]) == z3.Int("epoch"))
+                            return GenericSeq()
+                    return M_()
+                raise Unsupported("sampler.%s" % nm)
+
+        class GenericSeq:  # the epoch's samples: the comprehension is element-wise, one generic element stands for all
+            def __vc_iter__(self, I2):
+                return [IDX(z3.Int("k_generic"))]
+
+        def counter(I2, it=None):
+            elems = list(it) if isinstance(it, list) else None
+            I2.ex.oblige("len.counts_buckets_of_the_samples", z3.BoolVal(elems is not None and len(elems) == 1) if elems is None or len(elems) != 1 else ip.to_z3(elems[0]) == B(IDX(z3.Int("k_generic"))))
+            return AbsCounter()
+
+        I.stubs["collections.Counter"] = counter
+        obj = SObj(dl.BucketBatchSampler, {"sampler": Sampler(), "idx2bucket": FnMap(B), "bucket2size": FnMap(SZ), "drop_incomplete": drop}, "bs")
+        return I.call(dl._get_batch_sampler_len, [obj], {})
+
+    def inv(I, f, k):
+        return ip.to_z3(f.locals["len_"]) == BATCHES(k)
+
+    class Loop(LoopSpec):
+        def run(self, I, s, f):
+            return LoopSpec.run(self, I, s, f)
+
+    def item(I, f, it, k):
+        h = HB(k)
+        I.ex.assume(accounting(h))  # conclusion of C14.bucket.iter_inv for this bucket
+        I.ex.assume(rec(k))  # definition of the spec count
+        return (h, CNT(h))
+
+    loop = LoopSpec("len.loop", inv, length=lambda I, f, it: K, item=item, modifies={"len_": "int", "bucket": "int", "count": "int", "size": "int"})
+
+    def post(p):
+        if not api.returns(p):
+            return False
+        return [("length_is_the_number_of_batches_iter_yields", ip.to_z3(p.value) == BATCHES(K))]
+
+    return VC("C14.P.len_is_number_of_batches", name, M, "_get_batch_sampler_len", thunk, pre=[K >= 0, BATCHES(0) == 0], posts=[("len", post)], loops={("_get_batch_sampler_len", 0): loop},
+              inputs={"num_buckets": K}, timeout_ms=60000,
+              twins=[("one_more", lambda p: ip.to_z3(p.value) == BATCHES(K) + 1 if api.returns(p) else None)],
+              assumptions=["Counter over the epoch's samples abstracted to a map over K distinct buckets with the counts of C14.bucket.iter_inv; per bucket the accounting identity cnt = full * size + pend (0 <= pend < size) is that clause's proved conclusion, assumed here",
+                           "the comprehension inside Counter(...) is not executed (its argument is the ghost count); sampler.get_samples_for_epoch is asked for the sampler's current epoch (obligation)"])
+
+
 def vcs(ctx):
-    return [bucket_vc(True), bucket_vc(False)]
+    return [bucket_vc(True), bucket_vc(False), len_vc(True), len_vc(False)]
